@@ -565,12 +565,16 @@ func checkTaskExecutor(r *Reporter, p *Prog) {
 			cl, ok := n.(*ast.CallExpr)
 			return ok && strings.HasSuffix(exprKey(cl.Fun), ".queuedElements.Set") && len(cl.Args) == 2
 		}
-		nonNil := f.RelEdges(func(rel Rel) bool { return rel.Op == "!=" && (rel.L == "nil" || rel.R == "nil") })
-		okRec := false
-		for _, e := range nonNil {
-			if _, found := f.reach(Point{e.From.Succs[e.Succ], 0}, &searchOpts{AvoidNode: isSet}, func(pt Point, atExit bool) bool { return atExit }); !found {
-				okRec = true
-			}
+		// after the scheduling call, the exit is reachable without recording the task only through an
+		// edge on which the task is known to be nil (the executor refused it)
+		isNilEdges := f.RelEdgesAt(func(rel Rel) bool { return rel.Op == "==" && (rel.L == "nil" || rel.R == "nil") })
+		nilSet := map[Edge]bool{}
+		for _, e := range isNilEdges {
+			nilSet[e] = true
+		}
+		okRec := len(f.Find(isSet)) > 0
+		if _, found := f.reach(Point{sched[0].B, sched[0].I + 1}, &searchOpts{AvoidNode: isSet, AvoidEdge: func(e Edge) bool { return nilSet[e] }}, func(pt Point, atExit bool) bool { return atExit }); found {
+			okRec = false
 		}
 		if okRec {
 			r.Pass("taskexec/records-pending", key, f.PosOf(sched[0]), "an accepted task is recorded under its identifier")
@@ -687,8 +691,13 @@ func checkTaskExecutor(r *Reporter, p *Prog) {
 			}
 			return false
 		})
-		if len(cb) != 1 {
-			r.Fail("taskexec/wrapper-runs-callback", ikey, p.posStr(lit.pos), "the wrapper must run the callback exactly once")
+		skips := false
+		if len(cb) == 1 {
+			cbNode := lf.nodeAt(cb[0])
+			_, skips = lf.PathToExitAvoiding(Point{lf.G.Blocks[0], -1}, func(n ast.Node) bool { return n == cbNode || containsNode(cbNode, n) || containsNode(n, cbNode) })
+		}
+		if len(cb) != 1 || skips {
+			r.Fail("taskexec/wrapper-runs-callback", ikey, p.posStr(lit.pos), "the wrapper must run the callback exactly once, on every path")
 		} else {
 			r.Pass("taskexec/wrapper-runs-callback", ikey, lf.PosOf(cb[0]), "callback invoked once")
 		}
